@@ -229,8 +229,16 @@ def _r16b(rep):
     for k, v in want.items():
         rep.instance("R16b", YML, "PhonopyYaml.set_phonon_info", f"data.{k} = {got.get(k)}", got.get(k) == v, f"the saved file takes '{k}' from {got.get(k)} instead of {v}: that piece of state is not (or wrongly) saved", line=spi.lineno)
     sv = core.find_def(API, "Phonopy.save")
-    t = core.src(sv)
-    rep.instance("R16b", API, "Phonopy.save", "PhonopyYaml(settings=…).set_phonon_info(self); str(…) written", "PhonopyYaml(settings=_settings)" in t and "set_phonon_info(self)" in t and t.count("w.write(str(phpy_yaml))") == 2, "save() no longer writes the yaml of this object on both the plain and the compressed path", line=sv.lineno)
+    ys = [st for st in ast.walk(sv) if isinstance(st, ast.Assign) and isinstance(st.value, ast.Call) and core.src(st.value.func) == "PhonopyYaml" and isinstance(st.targets[0], ast.Name)]
+    ok_save = False
+    if ys:
+        Y = ys[0].targets[0].id
+        kw = {k.arg: core.src(k.value) for k in ys[0].value.keywords}
+        fed = any(isinstance(c, ast.Call) and core.src(c.func) == f"{Y}.set_phonon_info" and [core.src(a) for a in c.args] == ["self"] for c in ast.walk(sv))
+        withs = [w for w in ast.walk(sv) if isinstance(w, ast.With) and any("open" in core.src(i.context_expr) for i in w.items)]
+        wrote = [any(isinstance(c, ast.Call) and isinstance(c.func, ast.Attribute) and c.func.attr == "write" and c.args and Y in {x.id for x in ast.walk(c.args[0]) if isinstance(x, ast.Name)} for c in ast.walk(w)) for w in withs]
+        ok_save = kw.get("settings") == "_settings" and fed and bool(withs) and all(wrote)
+    rep.instance("R16b", API, "Phonopy.save", "PhonopyYaml(settings=<adjusted settings>) is fed with self and written on every output path", ok_save, "save() no longer writes the yaml of this object (built with the adjusted settings) on both the plain and the compressed path", line=sv.lineno)
     # save() only ever widens what the caller asked for: every write into the copied settings stores the constant True,
     # and it is not reachable when the caller put an explicit False under that key
     muts = []
